@@ -285,3 +285,42 @@ Example ex_cells :
   /\ snd (step (enough_fuel ex_sys) ex_sys ex_pop (init ex_inp) (RCalc 3 (Year, (2020, 1, 1), 1)))
      = AVal [7824; 7836].
 Proof. vm_compute. repeat split. Qed.
+
+(** ** Tie to the regenerated guards
+
+    coq/gen/Guards.v is re-emitted on every run from the Python text of
+    Simulation._check_period_consistency, calculate_add, calculate_divide and
+    CorePopulation.__call__ (harness/gen_tables.py, fail-closed); coq/model/GuardsSem.v reads
+    the names it chooses among and re-assembles the decision points ([src_calc_divide],
+    [src_call]).  The accept / reject decisions, the choice of the enclosing period and of the
+    denominator, and the option dispatch that the theorems above are about are the ones
+    written in the source now (the single statements are in props/GuardsTie.v). *)
+From Verif Require Import Guards GuardsSem GuardsProofs.
+
+Theorem source_guards_are_model_guards :
+  (forall x p, check_consistency x p
+               = if gen_check_consistency (v_unit x) (p_unit p) (p_size p) then Err EValue else Ok tt)
+  /\ (forall (S : Type) (rec : S -> nat -> period -> S * res val) s v x q,
+        calc_add rec s v x q
+        = if gen_add_guard (v_unit x) (p_unit q) then (s, Err EValue)
+          else match subperiods q (v_unit x) with
+               | Err e => (s, Err e)
+               | Ok subs => sum_calc rec s v subs None
+               end)
+  /\ (forall (S : Type) (rec : S -> nat -> period -> S * res val) s v x q,
+        calc_divide rec s v x q = src_calc_divide rec s v x q)
+  /\ (forall x q, apply_named (gen_divide_period_choice (v_unit x)) q = divide_period x q)
+  /\ (forall q cp, apply_size (gen_divide_denominator_choice (p_unit q)) cp = divide_denominator q cp)
+  /\ (forall (S : Type) (rec : S -> nat -> period -> S * res val) sy c s v q o,
+        call rec sy c s v q o = src_call rec sy c s v q o)
+  /\ (forall o, gen_option_dispatch (opt_has_add o) (opt_has_divide o) (opt_is_sequence o)
+                = match o with
+                  | OPlain => DPlain | OAdd => DAdd | ODivide => DDivide
+                  | OBoth => DIncompatible | OUnknown => DInvalid
+                  end).
+Proof.
+  exact (conj check_consistency_is_source (conj calc_add_is_source (conj calc_divide_is_source
+         (conj gen_divide_period_choice_is_model (conj gen_divide_denominator_choice_is_model
+         (conj call_is_source gen_option_dispatch_table)))))).
+Qed.
+Print Assumptions source_guards_are_model_guards.
